@@ -34,20 +34,72 @@ PROPS["C12"] = dict(
     ],
 )
 
+A_ITER = [
+    "A-iter: SeqIter shim (env/seqiter.vs): map, sum, any, all, position, tuple_windows, take, skip, copied, collect, for-loops carry the assumed semantics of std::iter / itertools; R5 routes `.iter()` chains to it",
+    "A-fmt (R9): format!(LIT, ..) with literal text returns a non-empty String; Display impls have no precondition",
+    "A-len: a well-formed tour has at most 2^17+2 nodes (pairwise distinct nodes, Idx = u16) — stated precondition of the operations, argued not machine-checked",
+]
+
+PROPS["C01"] = dict(
+    slices=["network", "net_enum", "tour_pos", "tour_mod"],
+    witness_family="tour",
+    level_text="Verus proves on the real code: can_reach equals the documented timing rule; Tour::new_allow_invalid returns Ok exactly for node sequences that start at a start depot, end at an end depot, have only activities in between, at least one of them, and are pairwise connectable; replace_start_depot / replace_end_depot preserve that invariant (Tour::wf); the position logic used by insert_path/remove follows the reference semantics. Type feasibility and the JSON writer are assumptions, not proved",
+    level_note="trusted: vstd, key-model axioms, derived Eq/Ord, the SeqIter shim, to_vec/Option::or/Result::unwrap_or specs, A-fmt; stubs: Tour::position_of, Path::new_trusted; A-path (paths handed to insert_path are connected), A-type (compatible_with_vehicle_type guards in schedule/modifications.rs) and A-json are caller-side assumptions",
+    scope="tour-level feasibility invariant: constructor + depot replacement (+ position logic); insert_path/remove bodies: see DESIGN.md coverage table",
+    assumptions=A_COMMON + A_ITER + [
+        "A-path: every path handed to Tour::insert_path of a real vehicle is connected (holds for Path::new and paths cut from real tours; dummy-tour paths rely on the triangle inequality, D9)",
+        "A-type: a vehicle only serves segments of its own type rests on the compatible_with_vehicle_type guards at schedule level (not under contract)",
+        "A-json: the JSON writer emits the tour it is given",
+    ],
+)
+PROPS["C10"] = dict(
+    slices=["network", "tour_pos", "tour_mod"],
+    witness_family="tour",
+    level_text="clause 1 only (every vehicle tour is a chronological path of connectable nodes from a start depot to an end depot with activities in between): same obligations as C01 on the Tour constructor and modifiers; formation/tour agreement, sorted listings, depot usage and cycle membership of schedules are NOT decided",
+    level_note="same trusted base and caller-side assumptions as C01",
+    scope="Tour::wf established by new_allow_invalid and preserved by replace_start_depot / replace_end_depot",
+    assumptions=A_COMMON + A_ITER + ["A-path, A-type as for C01", "schedule-level invariants (formations, listings, depot usage, cycles) not under contract"],
+)
+PROPS["C02"] = dict(
+    slices=["limits"],
+    witness_family="net",
+    level_text="Verus proves the per-call contracts: maximal_formation_count_for returns the smaller of the limits that are present (None iff neither), Depot::capacity_for is bounded by total and per-type capacity and is 0 for unlisted types, number_of_vehicles_required_to_serve is the exact ceiling; the composition over schedule histories (train_formations single writer, spawn paths) is a structural argument, not machine-checked",
+    level_note="trusted: vstd, key-model axioms, u32::div_ceil and Option::or specs; stub: VehicleTypes::get; admission checks in schedule/modifications.rs (vehicle_replacement_in_train_formation, can_depot_spawn_vehicle_custom_usage) and the flow bounds are not under contract in this revision",
+    scope="limit combination, depot capacity, vehicles required",
+    assumptions=A_COMMON + ["A-stub: VehicleTypes::get returns the stored type", "flow upper bounds in min_cost_flow_solver.rs not decided"],
+)
+PROPS["C03"] = dict(
+    slices=["json_out"],
+    witness_family=None,
+    level_text="one clause only: Verus proves that schedule_dead_head_trip places every dead-head trip inside the gap between the two activities it connects (departure >= arrival of the predecessor, arrival <= start of the successor, departure <= arrival); completeness of the JSON and agreement of the two views are NOT decided",
+    level_note="trusted: vstd, rapid_time operator contracts (verified in slice time), Network accessors (verified in slice network)",
+    scope="solution/src/json_serialisation.rs::schedule_dead_head_trip",
+    assumptions=A_COMMON + ["precondition: the two nodes are connectable (holds for consecutive tour nodes by C01) and the instance does not start within one dead-head duration of year 0"],
+)
+PROPS["C09"] = dict(
+    slices=["tour_mod", "formation"],
+    witness_family="tour",
+    level_text="tour level: Verus proves that compute_*_of_nodes (and hence new_computing / every freshly built tour) equal the from-scratch meaning of the five cached figures written from the property text, and that replace_start_depot / replace_end_depot keep all five caches exact, including tours through the infinitely distant overflow depot; schedule-level aggregates are NOT decided",
+    level_note="trusted: as C01 plus A-iter sums (Sum for Distance/Duration folds with +; integer sums do not wrap); Network::bounded magnitudes are a stated precondition",
+    scope="tour caches: constructors + depot replacement; remove / insert_path: see DESIGN.md coverage table",
+    assumptions=A_COMMON + A_ITER + ["Schedule.{costs, unserved_passengers, maintenance_violation, depot_usage} delta updates are not under contract"],
+)
+PROPS["C13"] = dict(
+    slices=["formation"],
+    witness_family=None,
+    level_text="last sentence only: Verus proves that TrainFormation::replace puts the new vehicle at the replaced one's position, add_at_tail appends, remove keeps the order, and replace/remove return Err iff the vehicle is absent; providers, receivers and frame conditions at schedule level are NOT decided",
+    level_note="trusted: vstd Vec specs (push, swap_remove, remove, clone), SeqIter::position, A-clone (derived Clone of Vehicle returns an equal value)",
+    scope="solution/src/train_formation.rs",
+    assumptions=["A-iter: SeqIter::position = first index satisfying the predicate", "A-clone: derived Clone returns an equal value"],
+)
+
 NOT_APPLICABLE = {
-    "C01": "pending: tour slices not built yet in this revision",
-    "C02": "pending: limit contracts not built yet in this revision",
-    "C03": "pending: schedule_dead_head_trip contract not built yet in this revision",
     "C04": "objective truth needs a whole-history invariant over ~900 lines of persistent-map code plus rapid_solve's dyn Objective; no contract within reach of Verus/Kani carries it",
     "C05": "pending: transition slices not built yet in this revision",
     "C06": "whole-pipeline termination and panic freedom through rayon and the external network simplex: liveness over histories, no thread support in either verifier; per-function totality is reported under the owning property",
     "C07": "coverage equals an optimality statement about the external network-simplex solution and the search trajectory; its per-function lemmas are proved under C02/C17",
     "C08": "the acceptance rule and fixpoint live in rapid_solve (rayon, channels, dyn objects); trajectory property",
-    "C09": "pending: tour cache slices not built yet in this revision",
-    "C10": "pending: tour slices not built yet in this revision",
     "C11": "neighbourhood candidates are compositions of schedule-level modifications generated under rayon; outside per-function contracts",
-    "C12": "pending: tour position slices not built yet in this revision",
-    "C13": "pending: formation slice not built yet in this revision",
     "C14": "optimality of the circulation returned by rs_graph::mcf::network_simplex; the network construction is a 230-line loop over HashMaps with I/O",
     "C15": "pending: transition slices not built yet in this revision",
     "C16": "pending: wiring slice not built yet in this revision",
